@@ -15,6 +15,9 @@ type Spec struct {
 
 var runners = map[string]eng.Runner{
 	"C04": wire.C04,
+	"C05": wire.C05,
+	"C07": wire.C07,
+	"C16": wire.C16Read,
 }
 
 // Find returns the runnable spec of a property.
